@@ -33,7 +33,7 @@ CHECKS = {
         "conditions for each real family configuration (order from the class, availability probed without passlib); simulated "
         "behaviours are replayed on the real global hashers in freshly forked processes comparing outcome and effective backends after "
         "every step; digests of a key sweep from every selectable backend and from libxcrypt / bcrypt-C / hashlib.scrypt are validated "
-        "as one function key->digest by Trace_Backend.",
+        "as one function key->digest by Trace_Backend. Extension run in the same check: Utf8Cut.tla (utf8_truncate / utf8_repeat_string over byte classes; seven properties of the definition proved by TLC over all class strings, every (string, index) pair executed).",
    note="Trusted: TLC, Backend.tla, libxcrypt/bcrypt-C/hashlib as independent providers; effective backend observed through the "
         "class's private __backend slot (projection only). Host dependent: argon2 and the 'scrypt' package are absent here.",
    technique="TLA+ spec (Backend.tla) model-checked with TLC + spec-to-implementation replay in fresh processes + digest trace validation"),
